@@ -188,20 +188,27 @@ def coqc_file(path: Path, timeout=600):
     return sh(cmd, timeout=timeout, cwd=str(path.parent))
 
 
-def target_uptodate(pid: str) -> bool:
-    """After `make -k`: is Properties/<pid>.vo (hence everything it depends on) built from the current sources?"""
-    rc, _ = sh("make -q theories/Properties/%s.vo" % pid, cwd=COQ, timeout=300)
+def property_files(pid: str):
+    """Properties/<pid>.v and Properties/<pid>_<unit>.v (one file per unit is allowed)."""
+    d = THEORIES / "Properties"
+    return sorted([p for p in d.glob("%s.v" % pid)] + [p for p in d.glob("%s_*.v" % pid)])
+
+
+def target_uptodate(src: Path) -> bool:
+    """After `make -k`: is the .vo of this property file (hence everything it depends on) built from current sources?"""
+    rel = src.relative_to(COQ).with_suffix(".vo")
+    rc, _ = sh("make -q %s" % rel, cwd=COQ, timeout=300)
     return rc == 0
 
 
 PA_SPLIT = re.compile(r"^(Closed under the global context|Axioms:)", re.M)
 
 
-def check_property_file(pid: str):
-    """Recompile Properties/<pid>.v and parse `Print Assumptions`.
+def check_property_file(src: Path):
+    """Recompile one Properties file and parse `Print Assumptions`.
 
     Returns dict(theorems=[names], assumptions={name: 'closed' | [axiom lines]}, ok, output)."""
-    src = THEORIES / "Properties" / ("%s.v" % pid)
+    pid = src.stem
     text = src.read_text()
     names = re.findall(r"^Print Assumptions\s+([\w.']+)\s*\.", text, re.M)
     thms = re.findall(r"^(?:Theorem|Lemma|Corollary)\s+([\w']+)", text, re.M)
@@ -415,33 +422,48 @@ TRUSTED_COMMON = [
 
 
 def proof_stage(ctx: Ctx, skip_build=False):
-    """Stage 1: gate, build, property file. Fills ctx.proof; returns True when all obligations discharged."""
+    """Stage 1: gate, build, property files. Fills ctx.proof; returns True when all obligations discharged."""
     bad = gate_scan()
     if bad:
         ctx.broken.append("gate: forbidden vernacular found: " + "; ".join(bad[:5]))
     ok, out, msgs = coq_build()
     ctx.notes.extend(msgs)
-    if not ok:
-        # some file failed; this property is affected only if its own target could not be rebuilt
-        ok = target_uptodate(ctx.pid)
-        if not ok:
+    files = property_files(ctx.pid)
+    all_ok = bool(files) and not bad
+    n_ob = n_ok = 0
+    thms, pa = [], {}
+    ctx.proof_units = {}
+    for src in files:
+        text = src.read_text()
+        k = len(re.findall(r"^(?:Theorem|Lemma|Corollary)\s+", text, re.M))
+        n_ob += k
+        fok = ok or target_uptodate(src)
+        if not fok:
             m = re.findall(r'File "([^"]+)", line (\d+), characters [\d-]+:\s*\n(Error:[^\n]*(?:\n[^\n]*){0,3})', out)
-            ctx.broken.append("proof obligation no longer checks: coq build of Properties/%s.vo failed at %s" % (
-                ctx.pid, "; ".join("%s:%s %s" % (a, b, c.replace("\n", " ")[:300]) for a, b, c in m[:3]) or "see build_output_tail"))
+            ctx.broken.append("proof obligation no longer checks: coq build of %s failed at %s" % (
+                src.name, "; ".join("%s:%s %s" % (a, b, c.replace("\n", " ")[:300]) for a, b, c in m[:3]) or "see build_output_tail"))
             ctx.extra["build_output_tail"] = out[-3000:]
-    res = check_property_file(ctx.pid) if ok else {"theorems": [], "printed": [], "assumptions": {}, "ok": False, "output": ""}
-    if ok and not res["ok"]:
-        ctx.broken.append("Properties/%s.v does not compile" % ctx.pid)
-        ctx.extra["props_output_tail"] = res["output"]
-    n_ob = len(re.findall(r"^(?:Theorem|Lemma|Corollary)\s+", (THEORIES / "Properties" / (ctx.pid + ".v")).read_text(), re.M))
-    n_ok = len(res["assumptions"]) if res["ok"] else 0
-    axioms = sorted({a for v in res["assumptions"].values() if v != "closed" for a in v})
+            all_ok = False
+            ctx.proof_units[src.stem] = False
+            continue
+        res = check_property_file(src)
+        if not res["ok"]:
+            ctx.broken.append("proof obligation no longer checks: %s does not compile" % src.name)
+            ctx.extra["props_output_tail_" + src.stem] = res["output"]
+            all_ok = False
+            ctx.proof_units[src.stem] = False
+            continue
+        ctx.proof_units[src.stem] = True
+        n_ok += min(k, len(res["assumptions"]))
+        thms += res["theorems"]
+        pa.update(res["assumptions"])
+    axioms = sorted({a for v in pa.values() if v != "closed" for a in v})
     ctx.proof = {
         "obligations": n_ob,
-        "discharged": min(n_ok, n_ob) if res["ok"] else 0,
-        "checker_cmd": "make -C coq (coqc 8.16.1, full .vo) && coqc -Q coq/theories RL4CO coq/theories/Properties/%s.v" % ctx.pid,
-        "theorems": res["theorems"],
-        "print_assumptions": res["assumptions"],
+        "discharged": n_ok,
+        "checker_cmd": "make -C coq (coqc 8.16.1, full .vo build, no -vos) && coqc -Q coq/theories RL4CO coq/theories/Properties/%s*.v" % ctx.pid,
+        "theorems": thms,
+        "print_assumptions": pa,
     }
     ctx.trusted = list(TRUSTED_COMMON) + ["axioms reported by Print Assumptions for this property: %s" % (axioms or "none (closed under the global context)")]
-    return ok and res["ok"] and not bad
+    return all_ok
